@@ -157,21 +157,7 @@ def run_verus_unit(prop, u, workdir, variant="main"):
     t0 = time.time()
     res = {"unit": unit, "variant": variant, "status": None, "errors": [], "backend": "verus/z3"}
     try:
-        src = open(tpl, encoding="utf-8").read()
-        vsrc = variant_template(src, variant)
-        vtpl = os.path.join(workdir, "%s.%s.vrs" % (unit, variant))
-        # keep relative include paths working: template dir must be a child of VERIF
-        os.makedirs(os.path.join(workdir, "t"), exist_ok=True)
-        vtpl = os.path.join(workdir, "t", "%s.%s.vrs" % (unit, variant))
-        open(vtpl, "w", encoding="utf-8").write(vsrc)
-        # includes are resolved relative to the parent of the template's directory -> symlink shims
-        link = os.path.join(workdir, "shims")
-        if not os.path.exists(link):
-            try:
-                os.symlink(os.path.join(VERIF, "shims"), link)
-            except FileExistsError:
-                pass
-        text, info = extract.assemble(vtpl, REPO)
+        text, info = extract.assemble(tpl, REPO, variant=variant)
     except extract.Lost as e:
         res.update(status="lost-anchor", detail=str(e), wall_s=time.time() - t0)
         return res
@@ -278,7 +264,7 @@ def main(argv):
     try:
         jobs = []
         units = [u for u in cfg.get("verus", []) if not only_unit or u["unit"] == only_unit]
-        variants = ["main", "reach"] + (["negpost"] if tier == "thorough" else [])
+        variants = ["main", "reach", "exit"]
         with cf.ThreadPoolExecutor(max_workers=int(os.environ.get("VERIF_JOBS", "6"))) as ex:
             for u in units:
                 for v in variants:
@@ -303,7 +289,7 @@ def report(prop, tier, seed, cfg, results, kres, known, t0):
     violations, undecided, known_hits = [], [], []
     obligations = discharged = 0
     per_fn, items, rewrites, trusted, samples, bounded = [], [], [], [], [], []
-    guards = {"reach_expected_fail": 0, "reach_failed_as_required": 0, "negpost_expected_fail": 0, "negpost_failed_as_required": 0}
+    guards = {"reach_expected_fail": 0, "reach_failed_as_required": 0, "exit_expected_fail": 0, "exit_failed_as_required": 0}
     cmds = []
     for r in results:
         unit, variant = r["unit"], r["variant"]
@@ -338,10 +324,11 @@ def report(prop, tier, seed, cfg, results, kres, known, t0):
                     path = write_replay(prop, unit, oid, e, r)
                     violations.append((oid, path, "no-failing-input-found", e))
         else:
-            want = contracted_fns(open(os.path.join(VERIF, "units", unit + ".vrs")).read())
             if r["status"] in ("lost-anchor", "tool-error", "timeout"):
                 undecided.append("%s[%s guard]: %s %s" % (unit, variant, r["status"], (r.get("detail") or "")[:300]))
                 continue
+            want = [i["path"].split("fn ")[-1].strip() for i in r["info"]["items"]
+                    if i["kind"] == "fn" and i.get("clauses") and (i["clauses"].get("requires") or i["clauses"].get("ensures"))]
             failed_fns = {f["function"].split("::")[-1] for f in r.get("functions", []) if f.get("success") is False}
             # errors carry `where`
             failed_where = {(e["where"] or "").split("fn ")[-1].strip() for e in r.get("errors", [])}
